@@ -106,7 +106,11 @@ func effectFindings(c *core.Ctx, fn *an.Fn) []string {
 			}
 		case *ast.Ident:
 			if v, ok := fn.Info().Uses[x].(*types.Var); ok && v.Pkg() != nil && v.Parent() == v.Pkg().Scope() && !strings.HasPrefix(v.Name(), "Err") && !strings.HasPrefix(v.Name(), "err") {
-				add(x.Pos(), "package-level variable "+v.Name())
+				// variables of other packages (binary.BigEndian, …) and package variables never assigned after
+				// their declaration are constants in effect
+				if v.Pkg() == fn.Pkg.Types && pkgVarAssigned(fn.Pkg, v) {
+					add(x.Pos(), "package-level mutable variable "+v.Name())
+				}
 			}
 		case *ast.BinaryExpr:
 			if x.Op == token.ADD || x.Op == token.SUB {
@@ -403,4 +407,48 @@ func c16Counter(c *core.Ctx, fn *an.Fn) {
 		return true
 	})
 	c.Check(bad == 0 && len(ex.Traces) > 0 && stored, "R4", "func=generateTokensByInstanceID:counter", loop.Pos(), fmt.Sprintf("%d iteration paths: the token counter is incremented exactly when a token is appended (%d paths disagree); the appended list is what is stored per instance=%v", len(ex.Traces), bad, stored), len(ex.Traces))
+}
+
+// pkgVarAssigned reports whether package variable v is assigned anywhere in its package's function bodies.
+func pkgVarAssigned(pkg *packages.Package, v *types.Var) bool {
+	assigned := false
+	for _, fn := range an.Funcs(pkg) {
+		fn.InspectDeep(func(n ast.Node) bool {
+			switch s := n.(type) {
+			case *ast.AssignStmt:
+				for _, l := range s.Lhs {
+					root := l
+					for {
+						switch x := an.Unparen(root).(type) {
+						case *ast.IndexExpr:
+							root = x.X
+							continue
+						case *ast.SelectorExpr:
+							root = x.X
+							continue
+						case *ast.StarExpr:
+							root = x.X
+							continue
+						}
+						break
+					}
+					if id, ok := an.Unparen(root).(*ast.Ident); ok && fn.Info().Uses[id] == v {
+						assigned = true
+					}
+				}
+			case *ast.IncDecStmt:
+				if id, ok := an.Unparen(s.X).(*ast.Ident); ok && fn.Info().Uses[id] == v {
+					assigned = true
+				}
+			case *ast.UnaryExpr:
+				if s.Op == token.AND {
+					if id, ok := an.Unparen(s.X).(*ast.Ident); ok && fn.Info().Uses[id] == v {
+						assigned = true
+					}
+				}
+			}
+			return true
+		})
+	}
+	return assigned
 }
